@@ -80,11 +80,33 @@ func (nullHandle) Apply([]byte) (any, error) { return nil, errors.New("no raft")
 func (nullHandle) IsLeader() bool             { return true }
 
 func NewReplica(name string, gcTTL, gcGran time.Duration) *Replica {
+	return NewReplicaPub(name, gcTTL, gcGran, nil)
+}
+
+// NewReplicaPub: with a real stream.EventPublisher the FSM registers its snapshot handlers on it and
+// the store hands committed events to it (C11); with nil, events are only recorded.
+func NewReplicaPub(name string, gcTTL, gcGran time.Duration, pub *stream.EventPublisher) *Replica {
 	gc, err := state.NewTombstoneGC(gcTTL, gcGran)
 	if err != nil {
 		panic(err)
 	}
 	r := &Replica{Name: name, GC: gc, Pub: &recPublisher{}}
+	if pub != nil {
+		backend, err := raftstorage.NewBackend(nil, nullLogger)
+		if err != nil {
+			panic(err)
+		}
+		r.FSM = fsm.NewFromDeps(fsm.Deps{
+			Logger: nullLogger,
+			NewStateStore: func() *state.Store {
+				r.Stores++
+				return state.NewStateStoreWithEventPublisher(gc, pub)
+			},
+			Publisher:      pub,
+			StorageBackend: backend,
+		})
+		return r
+	}
 	backend, err := raftstorage.NewBackend(nil, nullLogger)
 	if err != nil {
 		panic(err)
